@@ -27,7 +27,9 @@ import sys
 import numpy as np
 
 from ..contracts import attach, detach_all, quiet
+from ..polyhard import cfg32, clear_caches, warm32, layouts, is_c_contig, contig, order_containers
 from ..refmodels import poly_exact as E
+from ..util import precision
 
 Q = E.Q
 
@@ -44,7 +46,18 @@ RULE = ('families x parameter classes (Chebyshev half-integers, Legendre, (0,4),
         'orders, the m=1 / m>=2 branches of Q2d_seq by largest order, full sets forward and reversed, random shuffled lists with '
         'repeats, terms as tuples or lists, every norm option (True / False / default), cartesian (meshgrid, separable, 1xN, Mx1) '
         'and general coordinates for xy_seq. A case is non-trivial when the polynomial has degree >= 1; distinct = distinct '
-        'descriptor (family, parameters, order or order list, input class, point-set)')
+        'descriptor (family, parameters, order or order list, input class, point-set). Hardening classes: every unit starts with a quiet float32 '
+        'session under config.precision = 32 of the same routines up to the unit\'s highest order (32 -> 64 switch: the float64 calls that follow '
+        'are judged at full tolerance); units run entirely under precision = 32 (float32 / float64 / 0-D coordinates, single-precision tolerance); '
+        'history units per family (memo tables emptied where possible, then {float32 low orders | float32 high orders | nothing}, then orders '
+        '2,5,3,17,18,19,16,41,40,7,0,1,4,top or descending, interleaved over parameter sets sharing alpha, beta or alpha+beta, single-order and '
+        'sequence forms, then a descending sweep), across the families sharing the Jacobi table (cheby1-4 / legendre / Qcon / zernike m=0,1,4 <-> '
+        'jacobi) and for Qbfs / 2D-Q (m = 0,1,2,3,7); aliasing units (one coordinate object shared by consecutive single-order / sequence / '
+        'cross-family calls, every result judged against the PRISTINE values, earlier results must survive later calls, results overwritten with NaN '
+        'before asking again); memory layouts (Fortran, transposed view, strided, window, reversed strides; 1-D, 2-D, 3-D) of every coordinate; '
+        'containers (orders as int32 / int64 / intp scalars and list / tuple / int32 / int64 ndarray / numpy ints / range, parameters as numpy '
+        'float64, term lists as lists / tuples / int ndarrays); orders >= 18 and >= 40 for the two-index families, monomials and Hopkins terms in '
+        'the quick tier too; shape parameters as numpy float32 scalars followed by the same values as python floats')
 ASSUMPTIONS = ['textbook definitions as written in vp/refmodels/poly_exact.py (Szego 4.3.2 Jacobi sum; Mason-Handscomb '
                'numbering of the 3rd/4th-kind Chebyshev polynomials; Dickson D_0 = 2; Zernike norm sqrt(2(n+1)/(1+delta_m0)))',
                'Qbfs / 2D-Q are defined by: degree n in u^2, positive at the origin, orthonormal gradients under '
@@ -56,6 +69,11 @@ ASSUMPTIONS = ['textbook definitions as written in vp/refmodels/poly_exact.py (S
                'sequence forms: one-index order lists are in-domain when non-empty, non-negative and strictly ascending (documented: '
                '"sorted polynomial orders"), two-index term lists in any order with repeats; coordinates are floating ndarrays, r and t '
                'of one common shape; other requests reaching a contract are excluded and counted',
+               'orders are python ints or numpy int32 / int64 / intp; orders or parameters given as 8/16-bit numpy integers are out of domain (excluded and '
+               'counted); single-precision class (float32 coordinate or result, or config.precision = 32): tolerance 1e-3 of scale, orders <= 12',
+               'emptying prysm\'s memo tables (functools cache_clear, where a helper offers it) never changes what a correct library returns; it is used to '
+               'start histories from a known state and to label a failure as history-dependent',
+               'a caller may overwrite an array a routine returned, unless that array shares memory with the coordinates it passed (counted, not judged)',
                'xy_seq with cartesian_grid=True and 0-D/1-D coordinates is excluded and counted (grid-axes vs point-list reading is the '
                'open C08 ledger entry), cartesian 2-D grids are read as documented: arr[y, x], first row / first column']
 REQUIRED = ['value.jacobi', 'value.legendre', 'value.cheby1', 'value.cheby2', 'value.cheby3', 'value.cheby4',
@@ -64,7 +82,8 @@ REQUIRED = ['value.jacobi', 'value.legendre', 'value.cheby1', 'value.cheby2', 'v
             'gram.jacobi', 'gram.legendre', 'gram.cheby', 'gram.zernike', 'gram.qbfs-slope', 'gram.q2d-gradient',
             'value.jacobi_seq', 'value.legendre_seq', 'value.cheby1_seq', 'value.cheby2_seq', 'value.cheby3_seq', 'value.cheby4_seq',
             'value.hermite_He_seq', 'value.hermite_H_seq', 'value.laguerre_seq', 'value.dickson1_seq', 'value.dickson2_seq',
-            'value.Qbfs_seq', 'value.Qcon_seq', 'value.zernike_nm_seq.norm', 'value.zernike_nm_seq.nonorm', 'value.Q2d_seq', 'value.xy_seq']
+            'value.Qbfs_seq', 'value.Qcon_seq', 'value.zernike_nm_seq.norm', 'value.zernike_nm_seq.nonorm', 'value.Q2d_seq', 'value.xy_seq',
+            'alias.result-stable', 'alias.jacobi', 'alias.Qbfs', 'alias.Qcon', 'alias.zernike', 'alias.q2d']
 
 CTX = None
 WORST = {}          # monitor -> worst err/tol seen (reported as a note: distance to the threshold)
@@ -110,7 +129,54 @@ def xclass(x):
 
 
 def is_f32(*arrs):
-    return any(getattr(a, 'dtype', None) == np.float32 for a in arrs)
+    """Single-precision class: a float32 coordinate / result, or prysm configured with precision = 32 (whatever the dtypes)."""
+    return any(getattr(a, 'dtype', None) == np.float32 for a in arrs) or cfg32()
+
+
+HISTORY = [None]        # class label of the history the workload is in (set by the history units), for mechanism keys
+
+
+NARROW = 'orders-as-narrow-numpy-int'
+NARROW_SKIP = ('order or shape parameter given as an 8/16-bit numpy integer (out of domain: arithmetic on such scalars overflows by nature; '
+               'numpy orders are in-domain as int32 / int64 / intp)')
+
+
+def narrow(*vals):
+    """Is an order argument a numpy integer (scalar, or array / list of them) narrower than 32 bits?"""
+    for v in vals:
+        if isinstance(v, (np.integer, np.ndarray)) and v.dtype.kind in 'iu' and v.dtype.itemsize < 4:
+            return True
+        if isinstance(v, (list, tuple)) and any(narrow(*(e if isinstance(e, (list, tuple)) else [e])) for e in v):
+            return True
+    return False
+
+
+def mechanism(recheck, coords, retyped=None):
+    """Mechanism class of a value failure, found by re-running the ORIGINAL routine quietly (post-conditions run inside
+    contracts.quiet(): not monitored, not counted).  recheck(transform) -> True when the routine is right for the coordinates
+    transformed by `transform` (None: the very same argument objects).
+
+      memory-layout        right for C-contiguous private copies of the coordinates (some coordinate is not C-contiguous)
+      not-repeatable       right when the very same call is simply made again
+      history-dependent[:<history class>]  right once the memoised recurrence coefficients have been emptied: state left by an
+                           earlier call (the history class is the one the workload declared, if any)
+      orders-as-narrow-numpy-int  (only when `retyped` is given: an order argument is an 8/16-bit numpy integer) right, after the memo
+                           tables have been emptied, for the same orders as python ints
+      ''                   wrong regardless (the defect does not depend on layout or history)"""
+    try:
+        if retyped is not None:
+            clear_caches()
+            if retyped():
+                return NARROW
+        if recheck(None):
+            return 'not-repeatable'
+        if any(not is_c_contig(c) for c in coords) and recheck(contig):
+            return 'memory-layout'
+        if clear_caches() and recheck(None):
+            return 'history-dependent' + (':' + HISTORY[0] if HISTORY[0] else '')
+    except Exception:  # noqa
+        pass
+    return ''
 
 
 # ------------------------------------------------------------------------------------------ exact references
@@ -177,6 +243,9 @@ def post_1d(fam):
         x = a['x']
         if n < 0:
             return      # negative orders are not polynomials of the family (out of domain)
+        if narrow(a['n'], *params):
+            CTX.skip(NARROW_SKIP)
+            return
         desc = {'fn': fam, 'n': n, 'params': [float(v) for v in params], 'x': xclass(x), 'shape': list(np.shape(x)),
                 'dtype': str(getattr(x, 'dtype', type(x).__name__))}
         if fam == 'Qbfs' and n > QBFS_EXACT_MAX:
@@ -219,8 +288,15 @@ def post_1d(fam):
         tol = rtol * scale
         _track(mon + ('.f32' if f32 else ''), err, tol)
         if not err <= tol:
+            def recheck(tr):
+                out = np.asarray(ORIG[fam](a['n'], *params, x if tr is None else tr(x)))
+                return out.shape == np.shape(x) and row_err(out.ravel()[use].astype(float), ref) <= tol
             pc = jac_pclass(*[float(v) for v in params]) if fam == 'jacobi' else ''
-            key = '/'.join(s for s in ['C07', fam, 'value', pc, nclass(n), 'f32' if f32 else ''] if s)
+            def retyped():
+                out = np.asarray(ORIG[fam](n, *[float(v) for v in params], x))
+                return out.shape == np.shape(x) and row_err(out.ravel()[use].astype(float), ref) <= tol
+            mech = mechanism(recheck, [x], retyped if narrow(a['n'], *params) else None)
+            key = '/'.join(s for s in (['C07', fam, mech] if mech == NARROW else ['C07', fam, 'value', mech] if mech else ['C07', fam, 'value', pc, nclass(n), 'f32' if f32 else '']) if s)
             j = int(np.argmax(np.abs(got - ref))) if math.isfinite(err) else 0
             CTX.violation(key, f'{fam}(n, ...) differs from its closed-form definition', desc, err=err, tol=tol,
                           at=float(xf[use[j]]), got=float(got[j]), ref=float(ref[j]))
@@ -241,6 +317,9 @@ def post_zernike(token, args, kwargs, result):
     n, m, r, t, norm = int(a['n']), int(a['m']), a['r'], a['t'], a.get('norm', True)
     if abs(m) > n or (n - abs(m)) % 2:
         return   # not a Zernike index
+    if narrow(a['n'], a['m']):
+        CTX.skip(NARROW_SKIP)
+        return
     desc = {'fn': 'zernike_nm', 'n': n, 'm': m, 'norm': bool(norm), 'x': xclass(r), 'shape': list(np.shape(r)),
             'dtype': str(getattr(r, 'dtype', type(r).__name__))}
     CTX.observe('value.zernike_nm')
@@ -261,8 +340,16 @@ def post_zernike(token, args, kwargs, result):
     tol = (RT32 if f32 else RT64) * scale
     _track('value.zernike_nm' + ('.f32' if f32 else ''), err, tol)
     if not err <= tol:
+        def recheck(tr):
+            out = np.asarray(ORIG['zernike_nm'](a['n'], a['m'], r if tr is None else tr(r), t if tr is None else tr(t), norm=norm))
+            return out.shape == np.shape(result) and row_err(out.ravel()[idx].astype(float), ref) <= tol
         mc = 'm=0' if m == 0 else ('m>0' if m > 0 else 'm<0')
-        key = '/'.join(s for s in ['C07/zernike_nm/value', mc, 'norm' if norm else 'nonorm', nclass((n - abs(m)) // 2, 'nj'), 'f32' if f32 else ''] if s)
+        def retyped():
+            out = np.asarray(ORIG['zernike_nm'](n, m, r, t, norm=norm))
+            return out.shape == np.shape(result) and row_err(out.ravel()[idx].astype(float), ref) <= tol
+        mech = mechanism(recheck, [r, t], retyped if narrow(a['n'], a['m']) else None)
+        key = '/'.join(s for s in (['C07/zernike_nm', mech] if mech == NARROW else ['C07/zernike_nm/value', mech] if mech else
+                                   ['C07/zernike_nm/value', mc, 'norm' if norm else 'nonorm', nclass((n - abs(m)) // 2, 'nj'), 'f32' if f32 else '']) if s)
         CTX.violation(key, 'zernike_nm differs from R_n^m(r) cos/sin(m t) [* sqrt(2(n+1)/(1+delta_m0))]', desc, err=err, tol=tol)
 
 
@@ -274,6 +361,9 @@ def post_q2d(token, args, kwargs, result):
     a = dict(zip(['n', 'm', 'r', 't'], args))
     a.update(kwargs)
     n, m, r, t = int(a['n']), int(a['m']), a['r'], a['t']
+    if narrow(a['n'], a['m']):
+        CTX.skip(NARROW_SKIP)
+        return
     desc = {'fn': 'Q2d', 'n': n, 'm': m, 'x': xclass(r), 'shape': list(np.shape(r)), 'dtype': str(getattr(r, 'dtype', type(r).__name__))}
     CTX.observe('value.Q2d')
     # for m == 0 the routine returns Qbfs(n, r) whose shape is that of r alone
@@ -306,7 +396,14 @@ def post_q2d(token, args, kwargs, result):
     tol = (RT32 if f32 else RT64) * scale
     _track('value.Q2d' + ('.f32' if f32 else ''), err, tol)
     if not err <= tol:
-        key = '/'.join(s for s in ['C07/Q2d/value', q2d_mclass(m), nclass(n), 'f32' if f32 else ''] if s)
+        def recheck(tr):
+            out = np.asarray(ORIG['Q2d'](a['n'], a['m'], r if tr is None else tr(r), t if tr is None else tr(t)))
+            return out.shape == np.shape(result) and row_err(out.ravel()[idx].astype(float), ref) <= tol
+        def retyped():
+            out = np.asarray(ORIG['Q2d'](n, m, r, t))
+            return out.shape == np.shape(result) and row_err(out.ravel()[idx].astype(float), ref) <= tol
+        mech = mechanism(recheck, [r, t], retyped if narrow(a['n'], a['m']) else None)
+        key = '/'.join(s for s in (['C07/Q2d', mech] if mech == NARROW else ['C07/Q2d/value', 'm=0' if m == 0 else 'm!=0', mech] if mech else ['C07/Q2d/value', q2d_mclass(m), nclass(n), 'f32' if f32 else '']) if s)
         CTX.violation(key, 'Q2d differs from the orthonormal-gradient definition (exact Gram-Schmidt)', desc, err=err, tol=tol)
 
 
@@ -342,8 +439,14 @@ def post_xy(token, args, kwargs, result):
     tol = (RT32 if f32 else RT64) * scale
     _track('value.xy' + ('.f32' if f32 else ''), err, tol)
     if not err <= tol:
+        def recheck(tr):
+            out = np.asarray(ORIG['xy'](a['m'], a['n'], a['x'] if tr is None else tr(a['x']), a['y'] if tr is None else tr(a['y']), cartesian_grid=cart))
+            return out.shape == np.shape(result) and row_err(out.ravel()[idx].astype(float), ref) <= tol
         z = 'zero-exponent' if (m == 0 or n == 0) else 'positive-exponents'
-        CTX.violation(f'C07/xy/value/{"cartesian" if cart else "general"}/{z}', 'xy(m,n,x,y) != x^m y^n', desc, err=err, tol=tol)
+        mech = mechanism(recheck, [a['x'], a['y']])
+        key = '/'.join(s for s in ([f'C07/xy/value/{"cartesian" if cart else "general"}', mech] if mech else
+                                   [f'C07/xy/value/{"cartesian" if cart else "general"}/{z}', 'f32' if f32 else '']) if s)
+        CTX.violation(key, 'xy(m,n,x,y) != x^m y^n', desc, err=err, tol=tol)
 
 
 def post_hopkins(token, args, kwargs, result):
@@ -367,8 +470,13 @@ def post_hopkins(token, args, kwargs, result):
     tol = (RT32 if f32 else RT64) * scale
     _track('value.hopkins' + ('.f32' if f32 else ''), err, tol)
     if not err <= tol:
+        def recheck(tr):
+            out = np.asarray(ORIG['hopkins'](a_['a'], a_['b'], a_['c'], *[v if tr is None else tr(v) for v in (r, t, H)]))
+            return out.shape == np.shape(result) and row_err(out.ravel()[idx].astype(float), ref) <= tol
         ac = 'a<0' if a < 0 else ('a=0' if a == 0 else 'a>0')
-        CTX.violation(f'C07/hopkins/value/{ac}', 'hopkins(a,b,c,r,t,H) != cos(a t)|sin(|a| t) r^b H^c', desc, err=err, tol=tol)
+        mech = mechanism(recheck, [r, t, H])
+        key = '/'.join(s for s in (['C07/hopkins/value', mech] if mech else [f'C07/hopkins/value/{ac}', 'f32' if f32 else '']) if s)
+        CTX.violation(key, 'hopkins(a,b,c,r,t,H) != cos(a t)|sin(|a| t) r^b H^c', desc, err=err, tol=tol)
 
 
 # ------------------------------------------------------------------------------------------ sequence-form contracts
@@ -469,6 +577,9 @@ def post_seq_1d(fn):
         a = dict(zip(names, args))
         a.update(kwargs)
         ns = seq_orders(a['ns'])
+        if ns is not None and narrow(a['ns'], *[a[k] for k in names[1:-1]]):
+            CTX.skip(NARROW_SKIP)
+            return
         if ns is None:
             CTX.skip(f'{fn}: order list empty / negative / not strictly ascending / not re-iterable (out of the documented domain)')
             return
@@ -533,22 +644,24 @@ def post_seq_1d(fn):
             return
         b = bad[0]
 
-        def fails(lst):
+        def fails(lst, xx=x, pp=params):
             """Does the original routine, asked for the order list `lst`, return a wrong row for order b?"""
             try:
                 with np.errstate(all='ignore'):
-                    out = np.asarray(ORIG[fn](lst, *params, x))
+                    out = np.asarray(ORIG[fn](lst, *pp, xx))
                 if out.shape != (len(lst), *x.shape):
                     return True
                 ref, sc = ref_of(b)
-                return not row_err(out.reshape(len(lst), -1)[lst.index(b), use].astype(float), ref) <= rtol * sc
+                return not row_err(out.reshape(len(lst), -1)[[int(v) for v in lst].index(b), use].astype(float), ref) <= rtol * sc
             except Exception:  # noqa
                 return True
 
         top = ns[-1]
         dense = list(range(top + 1))
-        label = None
-        if ns == dense or fails(dense):
+        label = mechanism(lambda tr: not fails(a['ns'], x if tr is None else tr(x)), [x], (lambda: not fails(ns, x, [float(v) for v in params])) if narrow(a['ns'], *params) else None) or None
+        if label is not None:
+            pass
+        elif ns == dense or fails(dense):
             if k > 1 and not fails([b]):
                 label = 'with-companion-orders'
         else:
@@ -565,7 +678,7 @@ def post_seq_1d(fn):
             key = '/'.join(s for s in ['C07', fn, 'value', pc, nclass(b), 'f32' if f32 else ''] if s)
             what = f'{fn}: the row of a requested order differs from the closed-form definition of that order (for the dense list 0..max too)'
         else:
-            key = f'C07/{fn}/value/{label}'
+            key = f'C07/{fn}/{label}' if label == NARROW else f'C07/{fn}/value/{label}'
             what = (f'{fn}: the row of a requested order differs from the closed-form definition of that order although the routine is '
                     f'right for another order list containing it ({label})')
         CTX.violation(key, what, desc, failing_orders=bad[:8], **worst)
@@ -584,7 +697,7 @@ def nm_relation(e, f):
     return 'term-of-other-|m|'
 
 
-def two_index_verdict(fn, mon, entries, got, ref, scales, rtol, f32, rowclass, relation, recall, optclass, what, desc):
+def two_index_verdict(fn, mon, entries, got, ref, scales, rtol, f32, rowclass, relation, recall, optclass, what, desc, coords=None, raw=None):
     """Row-by-row comparison of a two-index *_seq result (got, ref: (k, npts)) and mechanism attribution of a failure.
     recall(lst) -> (len(lst), npts) rows of the ORIGINAL routine for the term list lst (None when it raises)."""
     bad, worst = [], None
@@ -601,11 +714,16 @@ def two_index_verdict(fn, mon, entries, got, ref, scales, rtol, f32, rowclass, r
     j = bad[0]
     f = entries[j]
 
-    def fails(lst, pos):
-        rows = recall(lst)
+    def fails(lst, pos, tr=None):
+        rows = recall(lst) if tr is None else recall(lst, tr)
         return rows is None or rows.shape[0] != len(lst) or not row_err(rows[pos], ref[j]) <= rtol * scales[j]
 
-    if len(entries) == 1 or fails([f], 0):
+    mech = mechanism(lambda tr: not fails(raw if raw is not None else list(entries), j, tr), coords,
+                     (lambda: not fails(list(entries), j)) if (raw is not None and narrow(raw)) else None) if coords is not None else ''
+    if mech:
+        key = f'C07/{fn}/{mech}' if mech == NARROW else '/'.join(s for s in [f'C07/{fn}/value', mech] if s)
+        what = what + f' ({mech}: the routine is right for the same request once the layout / call history is removed)'
+    elif len(entries) == 1 or fails([f], 0):
         key = '/'.join(s for s in [f'C07/{fn}/value', rowclass(f), 'f32' if f32 else ''] if s)
         what = what + ' (for the single-term list too)'
     else:
@@ -645,6 +763,9 @@ def post_zernike_seq(token, args, kwargs, result):
     a = dict(zip(['nms', 'r', 't', 'norm'], args))
     a.update(kwargs)
     nms, r, t, norm = _nm_list(a['nms']), a['r'], a['t'], bool(a.get('norm', True))
+    if nms and narrow(a['nms']):
+        CTX.skip(NARROW_SKIP)
+        return
     if not nms or any(abs(m) > n or (n - abs(m)) % 2 for n, m in nms):
         CTX.skip(f'{fn}: term list empty / not re-iterable / contains a non-Zernike index (out of domain)')
         return
@@ -669,16 +790,17 @@ def post_zernike_seq(token, args, kwargs, result):
     scales = [max(1.0, nrm(n, m)) for n, m in nms]
     got = np.asarray(result).reshape(k, -1)[:, idx].astype(float)
 
-    def recall(lst):
+    def recall(lst, tr=None):
         try:
             with np.errstate(all='ignore'):
-                return np.asarray(ORIG[fn](lst, r, t, norm=norm)).reshape(len(lst), -1)[:, idx].astype(float)
+                rr, tt = (r, t) if tr is None else (tr(r), tr(t))
+                return np.asarray(ORIG[fn](lst, rr, tt, norm=norm)).reshape(len(lst), -1)[:, idx].astype(float)
         except Exception:  # noqa
             return None
     nn = 'norm' if norm else 'nonorm'
     two_index_verdict(fn, mon, nms, got, ref, scales, RT32 if f32 else RT64, f32,
                       lambda f: f'{zmclass(f[1])}/{nn}/{nclass((f[0] - abs(f[1])) // 2, "nj")}', nm_relation, recall, nn,
-                      'zernike_nm_seq: a row differs from R_n^m(r) cos/sin(m t) [* sqrt(2(n+1)/(1+delta_m0))] of the requested (n,m)', desc)
+                      'zernike_nm_seq: a row differs from R_n^m(r) cos/sin(m t) [* sqrt(2(n+1)/(1+delta_m0))] of the requested (n,m)', desc, coords=[r, t], raw=a['nms'])
 
 
 def post_q2d_seq(token, args, kwargs, result):
@@ -686,6 +808,9 @@ def post_q2d_seq(token, args, kwargs, result):
     a = dict(zip(['nms', 'r', 't'], args))
     a.update(kwargs)
     nms, r, t = _nm_list(a['nms']), a['r'], a['t']
+    if nms and narrow(a['nms']):
+        CTX.skip(NARROW_SKIP)
+        return
     if not nms or any(n < 0 for n, m in nms):
         CTX.skip(f'{fn}: term list empty / not re-iterable / negative order (out of domain)')
         return
@@ -720,15 +845,16 @@ def post_q2d_seq(token, args, kwargs, result):
     ref = np.array(ref)
     got = np.asarray(result).reshape(k, -1)[:, idx].astype(float)
 
-    def recall(lst):
+    def recall(lst, tr=None):
         try:
             with np.errstate(all='ignore'):
-                return np.asarray(ORIG[fn](lst, r, t)).reshape(len(lst), -1)[:, idx].astype(float)
+                rr, tt = (r, t) if tr is None else (tr(r), tr(t))
+                return np.asarray(ORIG[fn](lst, rr, tt)).reshape(len(lst), -1)[:, idx].astype(float)
         except Exception:  # noqa
             return None
     two_index_verdict(fn, mon, nms, got, ref, scales, RT32 if f32 else RT64, f32,
                       lambda f: f'{q2d_mclass(f[1])}/{nclass(f[0])}', nm_relation, recall, '',
-                      'Q2d_seq: a row differs from the orthonormal-gradient definition (exact Gram-Schmidt) of the requested (n,m)', desc)
+                      'Q2d_seq: a row differs from the orthonormal-gradient definition (exact Gram-Schmidt) of the requested (n,m)', desc, coords=[r, t], raw=a['nms'])
 
 
 def xy_relation(e, f):
@@ -787,16 +913,17 @@ def post_xy_seq(token, args, kwargs, result):
     got = np.array([np.asarray(mode).ravel()[idx] for mode in result], dtype=float)
     f32 = is_f32(x, y, *result)
 
-    def recall(lst):
+    def recall(lst, tr=None):
         try:
             with np.errstate(all='ignore'):
-                return np.array([np.asarray(mode).ravel()[idx] for mode in ORIG[fn](lst, x, y, cartesian_grid=cart)], dtype=float)
+                xx, yy = (x, y) if tr is None else (tr(x), tr(y))
+                return np.array([np.asarray(mode).ravel()[idx] for mode in ORIG[fn](lst, xx, yy, cartesian_grid=cart)], dtype=float)
         except Exception:  # noqa
             return None
     cg = 'cartesian' if cart else 'general'
     two_index_verdict(fn, mon, mns, got, ref, scales, RT32 if f32 else RT64, f32,
                       lambda f: f'{cg}/{"zero-exponent" if (f[0] == 0 or f[1] == 0) else "positive-exponents"}', xy_relation, recall, cg,
-                      'xy_seq: a mode differs from x^m y^n of the requested (m,n)', desc)
+                      'xy_seq: a mode differs from x^m y^n of the requested (m,n)', desc, coords=[x, y], raw=a['mns'])
 
 
 def install():
@@ -804,6 +931,12 @@ def install():
     mods = sys.modules
     for fn in SEQ_ALL:
         ORIG[fn] = getattr(mods['prysm.polynomials.' + SEQ_SUB[fn]], fn)
+    for fam, (sub, _, _) in ONE_D.items():
+        ORIG[fam] = getattr(mods['prysm.polynomials.' + sub], fam)
+    ORIG['zernike_nm'] = mods['prysm.polynomials.zernike'].zernike_nm
+    ORIG['Q2d'] = mods['prysm.polynomials.qpoly'].Q2d
+    ORIG['xy'] = mods['prysm.polynomials.xy'].xy
+    ORIG['hopkins'] = mods['prysm.polynomials'].hopkins
     for fam, (sub, _, _) in ONE_D.items():
         attach(mods['prysm.polynomials.' + sub], fam, post=post_1d(fam))
     attach(mods['prysm.polynomials.zernike'], 'zernike_nm', post=post_zernike)
@@ -815,6 +948,13 @@ def install():
     attach(mods['prysm.polynomials.zernike'], 'zernike_nm_seq', post=post_zernike_seq)
     attach(mods['prysm.polynomials.qpoly'], 'Q2d_seq', post=post_q2d_seq)
     attach(mods['prysm.polynomials.xy'], 'xy_seq', post=post_xy_seq)
+
+
+def install_monitors(ctx):
+    """Attach the call-level contracts for vp/pytest_monitors.py (the repository's own tests as traffic)."""
+    global CTX
+    CTX = ctx
+    install()
 
 
 # ------------------------------------------------------------------------------------------ workload pieces
@@ -860,6 +1000,7 @@ def call_1d(P, fam, n, params, x):
 
 
 def sweep_unit(ctx, P, fam, params, nmax, xs, label):
+    warm_1d(P, fam, params, nmax)        # class C: a float32 session precedes the judged float64 one in the same process
     for n in range(nmax + 1):
         desc = {'wl': 'sweep', 'fn': fam, 'params': list(params), 'n': n, 'pts': label,
                 'class': f'{fam}:{jac_pclass(*params) if fam == "jacobi" else "p" + str(len(params))}:1d'}
@@ -894,6 +1035,7 @@ def scipy_check(ctx, fam, n, params, xs, got, desc):
 
 def shapes_unit(ctx, P, fam, params, orders, rng):
     lo, hi = domain(fam)
+    warm_1d(P, fam, params, max(orders))
     for n in orders:
         inputs = [
             ('pyfloat', float(dyadic(rng, lo, hi, ()))),
@@ -949,6 +1091,7 @@ def gram_1d_unit(ctx, P, fam, params, nmax, rule, logh, tol, mon):
     x, w = rule
     desc = {'wl': 'gram', 'fn': fam, 'params': list(params), 'nmax': nmax, 'nodes': int(len(x)), 'class': f'gram:{fam}'}
     ctx.case(desc)
+    warm_1d(P, fam, params, nmax)
     with ctx.guard(f'C07/{fam}/gram', desc):
         with np.errstate(all='ignore'):
             V = np.array([np.asarray(call_1d(P, fam, n, params, x), dtype=float) * math.exp(-0.5 * logh(n)) for n in range(nmax + 1)])
@@ -957,13 +1100,15 @@ def gram_1d_unit(ctx, P, fam, params, nmax, rule, logh, tol, mon):
 
 
 def zernike_units(ctx, P, rng):
-    nmax = ctx.pick(12, 30)
+    nmax = ctx.pick(12, 40)
+    gmax = ctx.pick(12, 30)
     nms = [(n, m) for n in range(nmax + 1) for m in range(-n, n + 1, 2)]
     rgrid = np.array([k / 32 for k in range(0, 33)] + [1 / 128, 127 / 128, 3 / 256, 255 / 256])
     units = []
 
     def sweep(part, nparts):
         tg = rng.uniform(0, 2 * np.pi, rgrid.shape)
+        warm_nm(P, 'zernike', nmax, nmax)
         for i, (n, m) in enumerate(nms):
             if i % nparts != part:
                 continue
@@ -984,18 +1129,20 @@ def zernike_units(ctx, P, rng):
                     with ctx.guard(f'C07/zernike_nm/x={cls}', desc):
                         P.zernike_nm(n, m, r, t, norm=(n % 2 == 0))
 
-    nparts = ctx.pick(2, 8)
+    nparts = ctx.pick(2, 16)
     for part in range(nparts):
         units.append((lambda part=part: sweep(part, nparts), 2))
 
     def gram():
-        R, T, W = E.disk_rule(nmax + 2, 4 * nmax + 8)
-        desc = {'wl': 'gram', 'fn': 'zernike_nm', 'nmax': nmax, 'modes': len(nms), 'nodes': [int(R.shape[1]), int(R.shape[0])], 'class': 'gram:zernike'}
+        gnms = [(n, m) for n, m in nms if n <= gmax]
+        R, T, W = E.disk_rule(gmax + 2, 4 * gmax + 8)
+        desc = {'wl': 'gram', 'fn': 'zernike_nm', 'nmax': gmax, 'modes': len(gnms), 'nodes': [int(R.shape[1]), int(R.shape[0])], 'class': 'gram:zernike'}
         ctx.case(desc)
+        warm_nm(P, 'zernike', gmax, gmax)
         with ctx.guard('C07/zernike_nm/gram', desc):
-            Z = np.array([P.zernike_nm(n, m, R, T, norm=True) for n, m in nms]).reshape(len(nms), -1)
+            Z = np.array([P.zernike_nm(n, m, R, T, norm=True) for n, m in gnms]).reshape(len(gnms), -1)
             G = (Z * W.ravel()) @ Z.T
-            gram_check(ctx, 'gram.zernike', 'zernike_nm', G, ['m=0' if m == 0 else 'm!=0' for n, m in nms], desc, 1e-9)
+            gram_check(ctx, 'gram.zernike', 'zernike_nm', G, ['m=0' if m == 0 else 'm!=0' for n, m in gnms], desc, 1e-9)
     units.append((gram, 3))
     return units
 
@@ -1006,11 +1153,12 @@ def q_units(ctx, P, rng):
     ugrid = grid_for('Qbfs')
 
     # ---- Q2d value sweep
-    nmax, mmax = ctx.pick((10, 10), (30, 30))
-    nparts = ctx.pick(2, 8)
+    nmax, mmax = ctx.pick((10, 10), (40, 40))
+    nparts = ctx.pick(2, 16)
 
     def sweep(part):
         tg = rng.uniform(0, 2 * np.pi, ugrid.shape)
+        warm_nm(P, 'q2d', nmax, mmax)
         i = -1
         for m in range(-mmax, mmax + 1):
             for n in range(nmax + 1):
@@ -1041,6 +1189,7 @@ def q_units(ctx, P, rng):
         u, w = E.half_chebyshev_rule(2 * N + 6)
         desc = {'wl': 'gram', 'fn': 'Qbfs', 'nmax': N, 'nodes': int(len(u)), 'class': 'gram:qbfs-slope'}
         ctx.case(desc)
+        warm_nm(P, 'q2d', N, 0)
         with ctx.guard('C07/Qbfs/gram', desc):
             S = np.array([E.cheb_derivative(lambda xs, n=n: P.Qbfs(n, xs), 2 * n + 4, u) for n in range(N + 1)])
             G = (2 / np.pi) * (S * w) @ S.T
@@ -1061,6 +1210,7 @@ def q_units(ctx, P, rng):
         k = np.fft.fftfreq(nt, 1 / nt)
         desc = {'wl': 'gram', 'fn': 'Q2d', 'nmax': gn, 'mmax': gm, 'msel': tag, 'modes': len(nms), 'class': 'gram:q2d-gradient'}
         ctx.case(desc)
+        warm_nm(P, 'q2d', gn, gm)
         with ctx.guard('C07/Q2d/gram', desc):
             GU, GT = [], []
             for n, m in nms:
@@ -1145,7 +1295,7 @@ def seq_order_lists(ctx, rng, top):
              [3, 5, 8, 13, 21, 34], [0, 9], [1, 9], [2, 9], [0, 1, 9], [0, 1, 2, 9, 10], [0, 1, 2, 4, 6, 8, 10],
              list(range(0, top + 1, 2)), list(range(1, top, 2)), list(range(2, 30, 3)), list(range(3, top + 1, 5))]
     out += [('gapped', sorted(set(v for v in l if v <= top))) for l in fixed]
-    for _ in range(ctx.pick(16, 400)):
+    for _ in range(ctx.pick(16, 1200)):
         k = int(rng.integers(1, 9))
         tp = int(rng.choice([8, 12, 20, 40, top]))
         out.append(('random', sorted(int(v) for v in rng.choice(tp + 1, size=min(k, tp + 1), replace=False))))
@@ -1157,6 +1307,7 @@ def seq1d_unit(ctx, P, fn, params, lists, rng, part, nparts, small=False):
     lo, hi = domain(fam)
     g = grid_for(fam)
     f = getattr(P, fn)
+    warm_1d(P, fam, params, max(ns[-1] for kind, ns in lists))
     for li, (kind, ns) in enumerate(lists):
         if li % nparts != part:
             continue
@@ -1221,7 +1372,7 @@ def zernike_term_lists(ctx, rng):
           ('omits-low-radial', [(7, 3), (9, 3), (9, -3)]), ('omits-low-radial', [(6, 0), (8, 0)])]
     low = [(n, m) for n, m in valid if n <= 4]
     L += [('full-low-set', low), ('full-low-set-reversed', low[::-1]), ('full-set', valid), ('full-set-reversed', valid[::-1])]
-    for _ in range(ctx.pick(24, 600)):
+    for _ in range(ctx.pick(24, 2000)):
         k = int(rng.integers(2, 10))
         pickd = [valid[i] for i in rng.integers(0, len(valid), size=k)]          # with replacement: repeats occur
         if rng.random() < 0.5:
@@ -1232,6 +1383,8 @@ def zernike_term_lists(ctx, rng):
 
 
 def zernike_seq_unit(ctx, P, lists, rng, part, nparts):
+    top = max(n for kind, nms in lists for n, m in nms)
+    warm_nm(P, 'zernike', top, top)
     for li, (kind, nms) in enumerate(lists):
         if li % nparts != part:
             continue
@@ -1269,7 +1422,7 @@ def q2d_term_lists(ctx, rng):
           ('omits-low-orders', [(3, 1), (5, -1)]), ('omits-low-orders', [(4, 2)]), ('omits-low-orders', [(5, 0), (3, 0)]), ('omits-low-orders', [(2, 3), (6, 3), (6, -3)])]
     full = [(n, m) for n in range(4) for m in range(-3, 4)]
     L += [('full-low-set', full), ('full-low-set-reversed', full[::-1])]
-    for _ in range(ctx.pick(24, 600)):
+    for _ in range(ctx.pick(24, 2000)):
         k = int(rng.integers(2, 9))
         pickd = [(int(rng.integers(0, N + 1)), int(rng.integers(-M, M + 1))) for _ in range(k)]
         if rng.random() < 0.5:
@@ -1282,6 +1435,7 @@ def q2d_term_lists(ctx, rng):
 
 
 def q2d_seq_unit(ctx, P, lists, rng, part, nparts):
+    warm_nm(P, 'q2d', max(n for kind, nms in lists for n, m in nms), max(abs(m) for kind, nms in lists for n, m in nms))
     for li, (kind, nms) in enumerate(lists):
         if li % nparts != part:
             continue
@@ -1308,7 +1462,7 @@ def xy_term_lists(ctx, rng, P):
           ('max-exponents-in-different-terms', [(5, 0), (0, 4), (1, 1)]), ('max-exponents-in-different-terms', [(1, 6), (6, 1)]),
           ('repeated', [(2, 1), (2, 1)]), ('repeated', [(1, 2), (2, 1), (1, 2)]), ('unsorted', [(3, 3), (0, 1), (2, 0), (1, 1), (0, 0)]),
           ('omits-low-exponents', [(3, 4), (5, 3)]), ('omits-low-exponents', [(2, 2)]), ('transposed-pair', [(1, 3), (3, 1)])]
-    for _ in range(ctx.pick(24, 600)):
+    for _ in range(ctx.pick(24, 2000)):
         k = int(rng.integers(1, 9))
         pickd = [(int(a), int(b)) for a, b in rng.integers(0, M + 1, size=(k, 2))]
         if rng.random() < 0.3:
@@ -1351,9 +1505,9 @@ def xy_seq_unit(ctx, P, lists, rng, part, nparts):
 def seq_units(ctx, P):
     """(callable, weight) units of the sequence-form workload."""
     units = []
-    NJ = ctx.pick(40, 150)
+    NJ = ctx.pick(40, 200)
     NH = ctx.pick(40, 60)
-    parts = ctx.pick(1, 3)
+    parts = ctx.pick(1, 6)
 
     def add1d(fn, params, top, weight=2, small=False):
         lists = seq_order_lists(ctx, ctx.rng('seqlists', fn, params), top)
@@ -1371,7 +1525,7 @@ def seq_units(ctx, P):
     for fn in ('laguerre_seq', 'dickson1_seq', 'dickson2_seq'):
         for pa in SEQ_PARAMS[fn][:ctx.pick(3, 4)]:
             add1d(fn, pa, NH, 2)
-    p2 = ctx.pick(2, 6)
+    p2 = ctx.pick(2, 16)
     zl = zernike_term_lists(ctx, ctx.rng('seqlists', 'zernike'))
     ql = q2d_term_lists(ctx, ctx.rng('seqlists', 'q2d'))
     xl = xy_term_lists(ctx, ctx.rng('seqlists', 'xy'), P)
@@ -1383,6 +1537,622 @@ def seq_units(ctx, P):
                               'zernike_term_lists': len(zl), 'q2d_term_lists': len(ql), 'xy_term_lists': len(xl),
                               'one_index_max_order': {'jacobi_family': NJ, 'hermite_laguerre_dickson': NH, 'Qbfs': ctx.pick(40, 60)}})
     return units
+
+
+# ------------------------------------------------------------------------------------------ hardening classes
+# C  configuration: single-precision session before the double-precision one (quiet warm-up at the top of every unit), and
+#    judged units run entirely under config.precision = 32 (float32, float64 and 0-D coordinates).
+# B  histories on the memoised recurrence coefficients: low orders, then orders >= 18 / >= 40, then descending, for parameter sets
+#    that share alpha, beta or alpha+beta, across families that share the Jacobi tables, after a float32 session.
+# A  repeat / aliasing: the same coordinate objects re-used across calls and families with every result judged against the
+#    PRISTINE coordinates; earlier results must survive later calls; results may be scribbled on; memory layouts; containers.
+# D  orders above any plausible internal table size for every family in the quick tier too.
+def pts32(fam, k=2):
+    lo, hi = domain(fam)
+    return np.array([lo + (hi - lo) * f for f in (0.3125, 0.75, 0.5625)[:k]], dtype=np.float32)
+
+
+def warm_1d(P, fam, params, top):
+    """Quiet float32 session (config.precision = 32) of the single-order and sequence routine of `fam` up to order `top`."""
+    x = pts32(fam)
+    th = [lambda: getattr(P, fam)(top, *params, x)]
+    if fam + '_seq' in SEQ_ONE:
+        th.append(lambda: getattr(P, fam + '_seq')([top], *params, x))
+    CTX.event('f32-warmup-raised', warm32(*th))
+
+
+def warm_nm(P, which, nmax, mmax):
+    r = np.array([0.3125, 0.75], dtype=np.float32)
+    t = np.array([0.5, 2.25], dtype=np.float32)
+    th = []
+    if which == 'zernike':
+        terms = [(nmax - ((nmax - m) % 2), m) for m in range(0, mmax + 1)]
+        th += [lambda n=n, m=m: P.zernike_nm(n, m, r, t) for n, m in terms]
+        th.append(lambda: P.zernike_nm_seq(terms, r, t))
+    else:
+        terms = [(nmax, m) for m in range(0, mmax + 1)]
+        th += [lambda n=n, m=m: P.Q2d(n, m, r, t) for n, m in terms]
+        th += [lambda: P.Q2d_seq(terms, r, t), lambda: P.Qbfs(nmax, r), lambda: P.Qbfs_seq([nmax], r)]
+    CTX.event('f32-warmup-raised', warm32(*th))
+
+
+def exact_1d(fam, n, params, xs):
+    """(reference values, scale) of family `fam` at the points xs from the exact definition."""
+    exact = ONE_D[fam][2]
+    pr = tuple(E.rat(v) for v in params)
+    qs = [E.rat(v) for v in np.asarray(xs, dtype=float).ravel()]
+    ref = np.array([exact(n, pr, q) for q in qs])
+    sc = max([1.0] + [abs(v) for v in ref] + [abs(exact(k, pr, q)) for k in (n - 1, n - 2) if k >= 0 for q in qs])
+    return ref, sc
+
+
+def judge_pristine(ctx, fam, n, params, x0, got, desc, what_hist):
+    """The caller passed an object whose values it knows to be x0: the result must be the definition at x0."""
+    ctx.observe('alias.' + fam)
+    got = np.asarray(got)
+    if got.shape != np.shape(x0):
+        return False     # the contract has reported the shape
+    ref, sc = exact_1d(fam, n, params, x0)
+    err = row_err(got.ravel().astype(float), ref)
+    if not err <= RT64 * sc:
+        ctx.violation(f'C07/{fam}/value/{what_hist}', f'{fam}: the result is not the definition at the coordinates the caller passed '
+                      f'({what_hist}: an earlier call was handed the same coordinate object)', desc, err=err, tol=RT64 * sc)
+        return False
+    return True
+
+
+ALIAS_FAMS = [('jacobi', (0.25, -0.25)), ('jacobi', (2.5, -0.75)), ('legendre', ()), ('cheby1', ()), ('cheby2', ()), ('cheby3', ()), ('cheby4', ()),
+              ('hermite_He', ()), ('hermite_H', ()), ('laguerre', (0.5,)), ('dickson1', (0.75,)), ('dickson2', (-1.0,)), ('Qbfs', ()), ('Qcon', ())]
+
+
+def alias_unit(ctx, P, fam, params, rng):
+    """Class A for one family: one coordinate object shared by single-order and sequence calls, judged against pristine values."""
+    lo, hi = domain(fam)
+    lo = max(lo, 0.0) if fam in ('Qbfs', 'Qcon', 'laguerre') else lo
+    f = getattr(P, fam)
+    fs = getattr(P, fam + '_seq')
+    for cls, x0 in (('1d', np.concatenate([[lo, hi], dyadic(rng, lo, hi, (3,), den=32)])), ('2d', dyadic(rng, lo, hi, (2, 3), den=32)),
+                    ('0d', np.asarray(float(dyadic(rng, lo, hi, (), den=32))))):
+        x = x0.copy()
+        kept = []
+        orders = [3, 0, 7, 1, 18, 2, 41] if cls == '1d' else [2, 5, 19]
+        for step, n in enumerate(orders):
+            if fam in ('hermite_He', 'hermite_H', 'laguerre', 'dickson1', 'dickson2') and n > 40:
+                n = 40
+            desc = {'wl': 'alias', 'fn': fam, 'params': list(params), 'n': n, 'step': step, 'xcls': cls, 'class': f'{fam}:shared-coordinates:{cls}'}
+            ctx.case(desc, nontrivial=n >= 1)
+            with ctx.guard(f'C07/{fam}/shared-coordinates', desc):
+                got = f(n if step % 2 else np.int64(n), *params, x)
+                judge_pristine(ctx, fam, n, params, x0, got, desc, 'after-call-sharing-coordinates')
+                if isinstance(got, np.ndarray):
+                    kept.append((n, got, got.copy()))
+            if step % 3 == 1:
+                ns = sorted(set(orders[:step + 1]))
+                ns = [min(v, 40) if fam in ('hermite_He', 'hermite_H', 'laguerre', 'dickson1', 'dickson2') else v for v in ns]
+                ns = sorted(set(ns))
+                desc = {'wl': 'alias', 'fn': fam + '_seq', 'params': list(params), 'ns': ns, 'step': step, 'xcls': cls, 'class': f'{fam}_seq:shared-coordinates:{cls}'}
+                ctx.case(desc)
+                with ctx.guard(f'C07/{fam}_seq/shared-coordinates', desc):
+                    rows = fs(ns, *params, x)
+                    for k, nn in enumerate(ns):
+                        judge_pristine(ctx, fam, nn, params, x0, np.asarray(rows)[k], desc, 'after-call-sharing-coordinates')
+                    if isinstance(rows, np.ndarray):
+                        kept.append((ns, rows, rows.copy()))
+        # earlier results must not have been changed by later calls (a result that aliases internal or argument storage)
+        for n, got, snap in kept:
+            desc = {'wl': 'alias', 'fn': fam, 'params': list(params), 'n': n, 'xcls': cls, 'class': f'{fam}:result-stability:{cls}'}
+            ctx.require('alias.result-stable', np.array_equal(got, snap, equal_nan=True), f'C07/{fam}/result-changed-by-later-call',
+                        f'{fam}: an array returned earlier was modified by a later call (it no longer equals the definition)', desc)
+        # the caller owns what was returned: scribble on it, then ask again
+        for n, got, snap in kept:
+            if np.shares_memory(got, x):
+                ctx.event('result-shares-memory-with-the-coordinate-argument (not overwritten, not a verdict)')
+            elif got.flags.writeable:
+                got[...] = np.nan
+        for n in orders[:3]:
+            desc = {'wl': 'alias', 'fn': fam, 'params': list(params), 'n': n, 'xcls': cls, 'class': f'{fam}:after-result-overwritten:{cls}'}
+            ctx.case(desc, nontrivial=n >= 1)
+            with ctx.guard(f'C07/{fam}/after-result-overwritten', desc):
+                judge_pristine(ctx, fam, n, params, x0, f(n, *params, x), desc, 'after-result-overwritten')
+        ctx.event('shared-coordinates-left-intact' if np.array_equal(x, x0) else 'shared-coordinates-MUTATED')
+
+
+def exact_nm(which, n, m, r0, t0, norm=True):
+    rf, tf = np.asarray(r0, dtype=float).ravel(), np.asarray(t0, dtype=float).ravel()
+    if which == 'zernike':
+        nrm = math.sqrt(E.zernike_norm2(n, m)) if norm else 1.0
+        return np.array([float(E.zernike_R(n, abs(m), E.rat(a))) * _trig(m, float(b)) * nrm for a, b in zip(rf, tf)]), max(1.0, nrm)
+    ref, sc = [], 1.0
+    for a, b in zip(rf, tf):
+        rp, nv = E.q_radial(n, m, E.rat(a))
+        rad = float(rp) / math.sqrt(nv)
+        sc = max(sc, abs(rad))
+        ref.append(rad * _trig(m, float(b)))
+    return np.array(ref), sc
+
+
+def alias_nm_unit(ctx, P, rng):
+    """Class A for the two-coordinate families: one (r, t) pair of objects shared by zernike_nm, zernike_nm_seq, Q2d, Q2d_seq, Qbfs,
+    xy, xy_seq and hopkins, every result judged against the pristine values."""
+    for cls, shp in (('1d', (5,)), ('2d', (2, 3)), ('0d', ())):
+        r0 = np.asarray(dyadic(rng, 0, 1, shp, den=32), dtype=float)
+        t0 = np.asarray(rng.uniform(0, 2 * np.pi, shp))
+        r, t = r0.copy(), t0.copy()
+        kept = []
+
+        def chk(which, n, m, got, desc, norm=True):
+            ctx.observe('alias.' + which)
+            got = np.asarray(got)
+            if got.shape != r0.shape:
+                return
+            ref, sc = exact_nm(which, n, m, r0, t0, norm)
+            err = row_err(got.ravel().astype(float), ref)
+            if not err <= RT64 * sc:
+                fn = 'zernike_nm' if which == 'zernike' else 'Q2d'
+                ctx.violation(f'C07/{fn}/value/after-call-sharing-coordinates', f'{fn}: the result is not the definition at the coordinates the caller '
+                              'passed (an earlier call was handed the same coordinate objects)', desc, err=err, tol=RT64 * sc)
+        seqz = [(4, 2), (4, -2), (2, 0), (19, 3), (6, 2)]
+        seqq = [(3, 1), (3, -1), (2, 0), (18, 2), (0, 1), (5, 0)]
+        for step, ((zn, zm), (qn, qm)) in enumerate(zip([(3, 1), (4, -2), (2, 0), (20, 4), (41, -1), (6, 0)], [(2, 1), (3, -2), (4, 0), (18, 3), (41, -1), (19, 0)])):
+            desc = {'wl': 'alias', 'fn': 'zernike_nm', 'n': zn, 'm': zm, 'step': step, 'xcls': cls, 'class': f'zernike_nm:shared-coordinates:{cls}'}
+            ctx.case(desc)
+            with ctx.guard('C07/zernike_nm/shared-coordinates', desc):
+                norm = bool(step % 2)
+                got = P.zernike_nm(zn, zm, r, t, norm=norm)
+                chk('zernike', zn, zm, got, desc, norm)
+                if isinstance(got, np.ndarray):
+                    kept.append(('zernike_nm', got, got.copy()))
+            desc = {'wl': 'alias', 'fn': 'Q2d', 'n': qn, 'm': qm, 'step': step, 'xcls': cls, 'class': f'Q2d:shared-coordinates:{cls}'}
+            ctx.case(desc)
+            with ctx.guard('C07/Q2d/shared-coordinates', desc):
+                got = P.Q2d(qn, qm, r, t)
+                chk('q2d', qn, qm, got, desc)
+                if isinstance(got, np.ndarray):
+                    kept.append(('Q2d', got, got.copy()))
+            if step % 2 == 1:
+                desc = {'wl': 'alias', 'fn': 'zernike_nm_seq', 'nms': seqz, 'step': step, 'xcls': cls, 'class': f'zernike_nm_seq:shared-coordinates:{cls}'}
+                ctx.case(desc)
+                with ctx.guard('C07/zernike_nm_seq/shared-coordinates', desc):
+                    rows = P.zernike_nm_seq(seqz, r, t, norm=(step % 4 == 1))
+                    for k, (n, m) in enumerate(seqz):
+                        chk('zernike', n, m, np.asarray(rows)[k], desc, step % 4 == 1)
+                    kept.append(('zernike_nm_seq', rows, np.array(rows, copy=True)))
+                desc = {'wl': 'alias', 'fn': 'Q2d_seq', 'nms': seqq, 'step': step, 'xcls': cls, 'class': f'Q2d_seq:shared-coordinates:{cls}'}
+                ctx.case(desc)
+                with ctx.guard('C07/Q2d_seq/shared-coordinates', desc):
+                    rows = P.Q2d_seq(seqq, r, t)
+                    for k, (n, m) in enumerate(seqq):
+                        chk('q2d', n, m, np.asarray(rows)[k], desc)
+                    kept.append(('Q2d_seq', rows, np.array(rows, copy=True)))
+                with ctx.guard('C07/xy/shared-coordinates', desc):
+                    P.xy(2, 3, r, t, cartesian_grid=False)
+                    P.xy_seq([(2, 3), (0, 1), (2, 0)], r, t, cartesian_grid=False)
+                    P.hopkins(2, 2, 1, r, t, r)
+                    P.Qbfs(7, r)
+                    P.Qcon(5, r)
+        for fn, got, snap in kept:
+            desc = {'wl': 'alias', 'fn': fn, 'xcls': cls, 'class': f'{fn}:result-stability:{cls}'}
+            ctx.require('alias.result-stable', np.array_equal(got, snap, equal_nan=True), f'C07/{fn}/result-changed-by-later-call',
+                        f'{fn}: an array returned earlier was modified by a later call (it no longer equals the definition)', desc)
+            if isinstance(got, np.ndarray) and (np.shares_memory(got, r) or np.shares_memory(got, t)):
+                ctx.event('result-shares-memory-with-the-coordinate-argument (not overwritten, not a verdict)')
+            elif isinstance(got, np.ndarray) and got.flags.writeable:
+                got[...] = np.nan
+        desc = {'wl': 'alias', 'fn': 'zernike_nm', 'n': 4, 'm': 2, 'xcls': cls, 'class': f'zernike_nm:after-result-overwritten:{cls}'}
+        ctx.case(desc)
+        with ctx.guard('C07/zernike_nm/after-result-overwritten', desc):
+            chk('zernike', 4, 2, P.zernike_nm(4, 2, r, t), desc)
+            chk('q2d', 3, 1, P.Q2d(3, 1, r, t), desc)
+            chk('q2d', 4, 0, P.Q2d(4, 0, r, t), desc)
+        ctx.event('shared-coordinates-left-intact' if (np.array_equal(r, r0) and np.array_equal(t, t0)) else 'shared-coordinates-MUTATED')
+
+
+def layout_unit(ctx, P, rng, part, nparts):
+    """Class A, memory layout of the coordinate arrays: Fortran order, transposed views, strided slices, windows, reversed strides
+    (the contracts judge values and shapes; a failure that disappears for a C-contiguous copy is keyed .../memory-layout)."""
+    i = -1
+    for fam, params in ALIAS_FAMS:
+        lo, hi = domain(fam)
+        lo = max(lo, 0.0) if fam in ('Qbfs', 'Qcon', 'laguerre') else lo
+        base2 = dyadic(rng, lo, hi, (3, 4), den=32)
+        base1 = dyadic(rng, lo, hi, (6,), den=32)
+        base3 = dyadic(rng, lo, hi, (2, 3, 2), den=32)
+        for n in (3, 18):
+            for base in (base2, base1, base3):
+                for lab, xv in layouts(base, full=(n == 3)):
+                    i += 1
+                    if i % nparts != part or lab == 'C':
+                        continue
+                    desc = {'wl': 'layout', 'fn': fam, 'params': list(params), 'n': n, 'layout': lab, 'ndim': base.ndim, 'class': f'{fam}:layout:{lab}:{base.ndim}d'}
+                    ctx.case(desc)
+                    with ctx.guard(f'C07/{fam}/layout', desc):
+                        getattr(P, fam)(n, *params, xv)
+                    desc = dict(desc, fn=fam + '_seq', **{'class': f'{fam}_seq:layout:{lab}:{base.ndim}d'})
+                    ctx.case(desc)
+                    seq_call(ctx, fam + '_seq', desc, lambda: getattr(P, fam + '_seq')([1, n - 1, n], *params, xv), None,
+                             [(nclass(n), lambda: ORIG[fam + '_seq']([n], *params, xv))])
+    r2 = dyadic(rng, 0, 1, (3, 4), den=32)
+    t2 = rng.uniform(0, 2 * np.pi, (3, 4))
+    r1 = dyadic(rng, 0, 1, (6,), den=32)
+    t1 = rng.uniform(0, 2 * np.pi, (6,))
+    for rb, tb in ((r2, t2), (r1, t1)):
+        Lr, Lt = layouts(rb), layouts(tb)
+        for a, (lr, rv) in enumerate(Lr):
+            for b, (lt, tv) in enumerate(Lt):
+                if (a == 0 and b == 0) or (a != b and a and b and (a + b) % 3):
+                    continue
+                i += 1
+                if i % nparts != part:
+                    continue
+                lab = f'{lr}/{lt}'
+                for fn, call, nt in (('zernike_nm', lambda: (P.zernike_nm(5, 3, rv, tv), P.zernike_nm(18, -2, rv, tv, norm=False), P.zernike_nm(4, 0, rv, tv)), True),
+                                     ('Q2d', lambda: (P.Q2d(3, 2, rv, tv), P.Q2d(18, -1, rv, tv), P.Q2d(4, 0, rv, tv)), True),
+                                     ('hopkins', lambda: P.hopkins(-2, 3, 1, rv, tv, rv), True),
+                                     ('xy', lambda: (P.xy(2, 3, rv, tv, cartesian_grid=False), P.xy(0, 2, rv, tv, cartesian_grid=False)), True)):
+                    desc = {'wl': 'layout', 'fn': fn, 'layout': lab, 'ndim': rb.ndim, 'class': f'{fn}:layout:{lab}:{rb.ndim}d'}
+                    ctx.case(desc)
+                    with ctx.guard(f'C07/{fn}/layout', desc):
+                        call()
+                for fn, lst, kw in (('zernike_nm_seq', [(5, 3), (5, -3), (2, 0), (18, 2)], {'norm': False}), ('zernike_nm_seq', [(4, 0), (3, 1)], {}),
+                                    ('Q2d_seq', [(3, 2), (3, -2), (2, 0), (18, 1)], {}), ('xy_seq', [(2, 3), (0, 1), (2, 0)], {'cartesian_grid': False})):
+                    desc = {'wl': 'layout', 'fn': fn, 'layout': lab, 'ndim': rb.ndim, 'class': f'{fn}:layout:{lab}:{rb.ndim}d'}
+                    ctx.case(desc)
+                    seq_call(ctx, fn, desc, lambda: getattr(P, fn)(lst, rv, tv, **kw), None, [('term', lambda e=e: ORIG[fn]([e], rv, tv, **kw)) for e in lst])
+    # cartesian grids for xy / xy_seq: meshgrid arrays in Fortran order and as transposed views
+    xv = dyadic(rng, -1, 1, (4,), den=16)
+    yv = dyadic(rng, -1, 1, (3,), den=16)
+    X, Y = np.meshgrid(xv, yv)
+    for (lx, XV), (ly, YV) in zip(layouts(X), layouts(Y)):
+        i += 1
+        if i % nparts != part:
+            continue
+        desc = {'wl': 'layout', 'fn': 'xy_seq', 'layout': lx, 'grid': 'cartesian', 'class': f'xy_seq:layout:cartesian:{lx}'}
+        ctx.case(desc)
+        with ctx.guard('C07/xy/layout', desc):
+            P.xy(2, 1, XV, YV)
+        seq_call(ctx, 'xy_seq', desc, lambda: P.xy_seq([(2, 1), (0, 3), (1, 0)], XV, YV), None, [('cartesian', lambda: ORIG['xy_seq']([(2, 1)], XV, YV))])
+
+
+def container_unit(ctx, P, rng):
+    """Class A, containers: order lists as list / tuple / int64 / int32 ndarray / list of numpy ints / range; the single order as a
+    numpy integer; shape parameters as numpy float64 scalars and python ints."""
+    for fam, params in ALIAS_FAMS:
+        lo, hi = domain(fam)
+        lo = max(lo, 0.0) if fam in ('Qbfs', 'Qcon', 'laguerre') else lo
+        x = dyadic(rng, lo, hi, (4,), den=32)
+        for ns in ([0, 1, 2, 3], [2, 5, 19], [3, 4, 5], [18]):
+            for lab, cont in order_containers(ns):
+                desc = {'wl': 'containers', 'fn': fam + '_seq', 'ns': ns, 'orders_as': lab, 'params': list(params), 'class': f'{fam}_seq:orders-as-{lab}'}
+                ctx.case(desc)
+                seq_call(ctx, fam + '_seq', desc, lambda: getattr(P, fam + '_seq')(cont, *params, x), None, [(nclass(n), lambda n=n: ORIG[fam + '_seq']([n], *params, x)) for n in ns])
+        for n in (0, 1, 2, 5, 19):
+            for lab, nn in (('int64', np.int64(n)), ('int32', np.int32(n)), ('intp', np.intp(n))):
+                for plab, pp in (('python', params), ('float64', tuple(np.float64(v) for v in params))):
+                    if plab == 'float64' and not params:
+                        continue
+                    desc = {'wl': 'containers', 'fn': fam, 'n': n, 'n_as': lab, 'params_as': plab, 'params': list(params), 'class': f'{fam}:n-as-{lab}:params-as-{plab}'}
+                    ctx.case(desc, nontrivial=n >= 1)
+                    with ctx.guard(f'C07/{fam}/n-as-{lab}', desc):
+                        getattr(P, fam)(nn, *pp, x)
+    r = dyadic(rng, 0, 1, (4,), den=32)
+    t = rng.uniform(0, 2 * np.pi, 4)
+    for lab, mk in (('int64', np.int64), ('int32', np.int32)):
+        desc = {'wl': 'containers', 'fn': 'zernike_nm/Q2d', 'n_as': lab, 'class': f'two-index:n-m-as-{lab}'}
+        ctx.case(desc)
+        with ctx.guard(f'C07/two-index/n-as-{lab}', desc):
+            for n, m in ((4, 2), (5, -3), (19, 1), (6, 0)):
+                P.zernike_nm(mk(n), mk(m), r, t)
+            for n, m in ((3, 2), (5, -3), (19, 1), (6, 0)):
+                P.Q2d(mk(n), mk(m), r, t)
+            P.xy(mk(2), mk(3), r, t, cartesian_grid=False)
+            P.hopkins(mk(-2), mk(3), mk(1), r, t, r)
+    for lab, mk in (('list-of-tuples', lambda L: [tuple(e) for e in L]), ('list-of-lists', lambda L: [list(e) for e in L]), ('tuple-of-tuples', lambda L: tuple(tuple(e) for e in L)),
+                    ('ndarray-int64', lambda L: np.array(L, dtype=np.int64)), ('ndarray-int32', lambda L: np.array(L, dtype=np.int32))):
+        for fn, L, kw in (('zernike_nm_seq', [(4, 2), (4, -2), (2, 0), (19, 1)], {}), ('zernike_nm_seq', [(5, 3), (3, -1)], {'norm': False}),
+                          ('Q2d_seq', [(3, 2), (3, -2), (2, 0), (19, 1)], {}), ('xy_seq', [(2, 3), (0, 1), (2, 0)], {'cartesian_grid': False})):
+            desc = {'wl': 'containers', 'fn': fn, 'terms_as': lab, 'class': f'{fn}:terms-as-{lab}'}
+            ctx.case(desc)
+            seq_call(ctx, fn, desc, lambda: getattr(P, fn)(mk(L), r, t, **kw), None, [('term', lambda e=e: ORIG[fn]([e], r, t, **kw)) for e in L])
+
+
+CFG_FAMS = ALIAS_FAMS + [('jacobi', (-0.5, 0.5)), ('jacobi', (0.0, 4.0)), ('laguerre', (-0.875,)), ('dickson1', (-1.0,))]
+
+
+def cfg32_unit(ctx, P, rng, part, nparts):
+    """Class C: everything under config.precision = 32 - float32 coordinates, float64 coordinates (mixed) and 0-D - judged at the
+    single-precision tolerance (orders <= 12: float32 recurrences lose digits with the order)."""
+    orders = (0, 1, 2, 3, 5, 8, 12)
+    with precision(32):
+        for i, (fam, params) in enumerate(CFG_FAMS):
+            if i % nparts != part:
+                continue
+            lo, hi = domain(fam)
+            lo = max(lo, 0.0) if fam in ('Qbfs', 'Qcon', 'laguerre') else lo
+            xs = [('f32-1d', dyadic(rng, lo, hi, (5,), den=64).astype(np.float32)), ('f64-1d', dyadic(rng, lo, hi, (5,), den=64)),
+                  ('f32-0d', np.asarray(dyadic(rng, lo, hi, (), den=64), dtype=np.float32)), ('f32-2d', dyadic(rng, lo, hi, (2, 3), den=64).astype(np.float32))]
+            for n in orders:
+                for cls, x in xs:
+                    desc = {'wl': 'cfg32', 'fn': fam, 'params': list(params), 'n': n, 'xcls': cls, 'class': f'{fam}:precision=32:{cls}'}
+                    ctx.case(desc, nontrivial=n >= 1)
+                    with ctx.guard(f'C07/{fam}/precision=32/x={cls}', desc):
+                        call_1d(P, fam, n, params, x)
+            fn = fam + '_seq'
+            for ns in ([0, 1, 2, 3, 5, 8, 12], [3, 9], [0], [12], [1, 2]):
+                for cls, x in xs:
+                    desc = {'wl': 'cfg32', 'fn': fn, 'params': list(params), 'ns': ns, 'xcls': cls, 'class': f'{fn}:precision=32:{cls}'}
+                    ctx.case(desc, nontrivial=ns[-1] >= 1)
+                    seq_call(ctx, fn, desc, lambda: getattr(P, fn)(ns, *params, x), None, [(nclass(n), lambda n=n: ORIG[fn]([n], *params, x)) for n in ns])
+        if part == 0:
+            coords = [('f32-1d', dyadic(rng, 0, 1, (5,), den=64).astype(np.float32), rng.uniform(0, 6.28, 5).astype(np.float32)),
+                      ('f64-1d', dyadic(rng, 0, 1, (5,), den=64), rng.uniform(0, 6.28, 5)),
+                      ('f32-2d', dyadic(rng, 0, 1, (2, 3), den=64).astype(np.float32), rng.uniform(0, 6.28, (2, 3)).astype(np.float32)),
+                      ('f32-0d', np.asarray(0.40625, dtype=np.float32), np.asarray(1.25, dtype=np.float32))]
+            for cls, r, t in coords:
+                for n in range(0, 9):
+                    for m in range(-n, n + 1, 2):
+                        desc = {'wl': 'cfg32', 'fn': 'zernike_nm', 'n': n, 'm': m, 'xcls': cls, 'class': f'zernike_nm:precision=32:{cls}'}
+                        ctx.case(desc, nontrivial=n >= 1)
+                        with ctx.guard(f'C07/zernike_nm/precision=32/x={cls}', desc):
+                            P.zernike_nm(n, m, r, t, norm=bool((n + m) % 4))
+                for n in range(0, 7):
+                    for m in range(-4, 5):
+                        desc = {'wl': 'cfg32', 'fn': 'Q2d', 'n': n, 'm': m, 'xcls': cls, 'class': f'Q2d:precision=32:{cls}'}
+                        ctx.case(desc)
+                        with ctx.guard(f'C07/Q2d/precision=32/x={cls}', desc):
+                            P.Q2d(n, m, r, t)
+                for fn, L, kw in (('zernike_nm_seq', [(n, m) for n in range(7) for m in range(-n, n + 1, 2)], {}), ('zernike_nm_seq', [(4, 2), (4, -2), (2, 0), (8, 0)], {'norm': False}),
+                                  ('Q2d_seq', [(n, m) for n in range(5) for m in range(-3, 4)], {}), ('xy_seq', [(2, 3), (0, 1), (2, 0), (5, 5)], {'cartesian_grid': False})):
+                    desc = {'wl': 'cfg32', 'fn': fn, 'xcls': cls, 'opt': str(kw), 'class': f'{fn}:precision=32:{cls}'}
+                    ctx.case(desc)
+                    seq_call(ctx, fn, desc, lambda: getattr(P, fn)(L, r, t, **kw), None, [('term', lambda e=e: ORIG[fn]([e], r, t, **kw)) for e in L[:12]])
+                desc = {'wl': 'cfg32', 'fn': 'xy/hopkins', 'xcls': cls, 'class': f'xy-hopkins:precision=32:{cls}'}
+                ctx.case(desc)
+                with ctx.guard(f'C07/xy/precision=32/x={cls}', desc):
+                    for m_, n_ in ((0, 0), (2, 3), (5, 0), (0, 4)):
+                        P.xy(m_, n_, r, t, cartesian_grid=False)
+                    for a_, b_, c_ in ((0, 2, 0), (1, 3, 1), (-2, 2, 2)):
+                        P.hopkins(a_, b_, c_, r, t, r)
+
+
+HIST_ORDERS = [2, 5, 3, 17, 18, 19, 16, 41, 40, 7, 0, 1, 4]
+HIST_VARIANTS = ('f32-low-orders-then-f64', 'f32-high-orders-then-f64', 'f64-low-then-high', 'f64-high-then-low')
+
+
+def hist_prologue(variant, low, high):
+    """Start of a history: memo tables emptied (where possible), then the optional single-precision session."""
+    clear_caches()
+    if variant == 'f32-low-orders-then-f64':
+        low()
+    elif variant == 'f32-high-orders-then-f64':
+        high()
+
+
+def hist_order_list(variant, top):
+    o = [v for v in HIST_ORDERS if v <= top] + [top, top - 1]
+    if variant == 'f64-high-then-low':
+        o = [top, 41, 18, 40, 17, 5, 2, 19, 3, 0, 1, top - 1]
+        o = [v for v in o if v <= top]
+    return o
+
+
+def history_1d_unit(ctx, P, fam, plist, top, variant):
+    """Class B/C for one family: parameter sets that share alpha, beta or alpha+beta are interleaved order by order, so a table
+    keyed without one of them, grown in steps, or filled during the float32 session is read back by a judged float64 call."""
+    lo, hi = domain(fam)
+    lo = max(lo, 0.0) if fam in ('Qbfs', 'Qcon', 'laguerre') else lo
+    x = np.array([lo, lo + (hi - lo) * 0.40625, lo + (hi - lo) * 0.8125, hi])
+    x32 = pts32(fam)
+    f, fs = getattr(P, fam), getattr(P, fam + '_seq')
+    HISTORY[0] = variant
+    try:
+        hist_prologue(variant, lambda: warm32(*[lambda p=p: (f(5, *p, x32), fs([0, 1, 2, 3, 4, 5], *p, x32)) for p in plist]),
+                      lambda: warm32(*[lambda p=p: (f(top, *p, x32), fs([top], *p, x32)) for p in plist]))
+        orders = hist_order_list(variant, top)
+        for step, n in enumerate(orders):
+            for p in plist:
+                desc = {'wl': 'history', 'fn': fam, 'params': list(p), 'n': n, 'step': step, 'variant': variant, 'class': f'{fam}:history:{variant}'}
+                ctx.case(desc, nontrivial=n >= 1)
+                with ctx.guard(f'C07/{fam}/history', desc):
+                    f(n, *p, x)
+            if step % 3 == 2:
+                ns = sorted(set(orders[max(0, step - 3):step + 1]))
+                for p in plist:
+                    desc = {'wl': 'history', 'fn': fam + '_seq', 'params': list(p), 'ns': ns, 'step': step, 'variant': variant, 'class': f'{fam}_seq:history:{variant}'}
+                    ctx.case(desc)
+                    seq_call(ctx, fam + '_seq', desc, lambda: fs(ns, *p, x), None, [(nclass(v), lambda v=v: ORIG[fam + '_seq']([v], *p, x)) for v in ns])
+        # descending sweep on two points (every table entry is read again after the tables are complete)
+        for n in range(min(top, 45), -1, -1):
+            p = plist[n % len(plist)]
+            desc = {'wl': 'history', 'fn': fam, 'params': list(p), 'n': n, 'variant': variant, 'sweep': 'descending', 'class': f'{fam}:history:descending'}
+            ctx.case(desc, nontrivial=n >= 1)
+            with ctx.guard(f'C07/{fam}/history', desc):
+                f(n, *p, x[1:3])
+    finally:
+        HISTORY[0] = None
+
+
+def history_shared_unit(ctx, P, variant):
+    """Class B across the families that share the Jacobi recurrence table: cheby1..4 <-> jacobi(+-1/2, +-1/2), legendre <-> jacobi(0,0)
+    <-> zernike m=0, Qcon <-> jacobi(0,4) <-> zernike |m|=4, in alternation, low orders then >= 18 / >= 40 then descending."""
+    x = np.array([-1.0, -0.34375, 0.40625, 1.0])
+    u = np.array([0.0, 0.34375, 0.8125, 1.0])
+    tt = np.array([0.5, 1.75, 3.0, 5.5])
+    x32, u32, t32 = x[1:3].astype(np.float32), u[1:3].astype(np.float32), tt[1:3].astype(np.float32)
+    groups = [('cheby1', (-.5, -.5)), ('cheby2', (.5, .5)), ('cheby3', (-.5, .5)), ('cheby4', (.5, -.5)), ('legendre', (0.0, 0.0))]
+
+    def session(n, xx, uu, t_, judged):
+        for fam, ab in groups:
+            calls = [(fam, lambda: getattr(P, fam)(n, xx)), ('jacobi', lambda: P.jacobi(n, *ab, xx)),
+                     (fam + '_seq', lambda: getattr(P, fam + '_seq')([max(n - 1, 0), n] if n else [0], xx)),
+                     ('jacobi_seq', lambda: P.jacobi_seq([n], *ab, xx))]
+            for fn, c in calls:
+                if judged:
+                    desc = {'wl': 'history', 'fn': fn, 'shares-table-with': fam, 'n': n, 'variant': variant, 'class': f'{fn}:history-shared-jacobi-table:{variant}'}
+                    ctx.case(desc, nontrivial=n >= 1)
+                    with ctx.guard(f'C07/{fn}/history', desc):
+                        c()
+                else:
+                    c()
+        calls = [('zernike_nm', lambda: P.zernike_nm(2 * n, 0, uu, t_)), ('legendre', lambda: P.legendre(n, xx)),
+                 ('Qcon', lambda: P.Qcon(n, uu)), ('zernike_nm', lambda: P.zernike_nm(2 * n + 4, 4, uu, t_)), ('jacobi', lambda: P.jacobi(n, 0, 4, xx)),
+                 ('zernike_nm', lambda: P.zernike_nm(2 * n + 4, -4, uu, t_, norm=False)), ('Qcon_seq', lambda: P.Qcon_seq([n], uu)),
+                 ('zernike_nm_seq', lambda: P.zernike_nm_seq([(2 * n + 4, 4), (2 * n, 0), (2 * n + 1, 1)], uu, t_)), ('jacobi_seq', lambda: P.jacobi_seq([n], 0, 4, xx)),
+                 ('jacobi', lambda: P.jacobi(n, 0, 1, xx)), ('zernike_nm', lambda: P.zernike_nm(2 * n + 1, -1, uu, t_))]
+        for fn, c in calls:
+            if judged:
+                desc = {'wl': 'history', 'fn': fn, 'n': n, 'variant': variant, 'class': f'{fn}:history-shared-jacobi-table:{variant}'}
+                ctx.case(desc)
+                with ctx.guard(f'C07/{fn}/history', desc):
+                    c()
+            else:
+                c()
+    HISTORY[0] = variant
+    try:
+        hist_prologue(variant, lambda: warm32(lambda: session(5, x32, u32, t32, False)), lambda: warm32(lambda: session(41, x32, u32, t32, False)))
+        for n in hist_order_list(variant, 41)[:-2]:
+            session(n, x, u, tt, True)
+    finally:
+        HISTORY[0] = None
+
+
+def history_q_unit(ctx, P, variant, ms):
+    """Class B/C for the Forbes families: Qbfs f/g/h tables (keyed by n) and the 2D-Q tables (keyed by n, |m|)."""
+    u = np.array([0.0, 0.34375, 0.8125, 1.0])
+    tt = np.array([0.5, 1.75, 3.0, 5.5])
+    u32, t32 = u[1:3].astype(np.float32), tt[1:3].astype(np.float32)
+
+    def session(n, uu, t_, judged):
+        calls = [('Qbfs', lambda: P.Qbfs(n, uu)), ('Q2d', lambda: P.Q2d(n, 0, uu, t_)), ('Qbfs_seq', lambda: P.Qbfs_seq([max(n - 1, 0), n] if n else [0], uu)),
+                 ('Q2d_seq', lambda: P.Q2d_seq([(n, 0), (max(n - 2, 0), 0)], uu, t_))]
+        for m in ms:
+            calls += [('Q2d', lambda m=m: P.Q2d(n, m, uu, t_)), ('Q2d', lambda m=m: P.Q2d(n, -m, uu, t_)),
+                      ('Q2d_seq', lambda m=m: P.Q2d_seq([(n, m), (max(n - 2, 0), -m), (n, 0)], uu, t_))]
+        for fn, c in calls:
+            if judged:
+                desc = {'wl': 'history', 'fn': fn, 'n': n, 'ms': list(ms), 'variant': variant, 'class': f'{fn}:history:{variant}'}
+                ctx.case(desc)
+                with ctx.guard(f'C07/{fn}/history', desc):
+                    c()
+            else:
+                c()
+    HISTORY[0] = variant
+    try:
+        hist_prologue(variant, lambda: warm32(lambda: session(5, u32, t32, False)), lambda: warm32(lambda: session(41, u32, t32, False)))
+        for n in hist_order_list(variant, 41)[:-2]:
+            session(n, u, tt, True)
+    finally:
+        HISTORY[0] = None
+
+
+def typed_parameter_unit(ctx, P):
+    """Class A/C: shape parameters handed over as numpy float32 scalars in a single-precision call, then the same VALUES as python
+    floats in a double-precision call (dyadic values: np.float32(0.5) == 0.5 and both hash alike, so a memo table keyed by value
+    serves the second call from the entry the first one made).  Bracketed by cache resets; runs last on its shard."""
+    x = np.array([-1.0, -0.34375, 0.40625, 1.0])
+    x32 = x[1:3].astype(np.float32)
+    HISTORY[0] = 'after-call-with-float32-typed-parameters'
+    try:
+        for fam, p in (('jacobi', (0.5, -0.5)), ('jacobi', (0.25, 1.5)), ('laguerre', (0.5,)), ('dickson1', (0.75,)), ('dickson2', (0.75,))):
+            clear_caches()
+            lo, hi = domain(fam)
+            xx = x if lo < 0 else np.array([0.0, 0.34375, 0.8125, 1.0])
+            p32 = tuple(np.float32(v) for v in p)
+            with quiet(), np.errstate(all='ignore'):
+                try:
+                    getattr(P, fam)(20, *p32, xx[1:3].astype(np.float32))
+                    getattr(P, fam + '_seq')([3, 20], *p32, xx[1:3].astype(np.float32))
+                except Exception:  # noqa
+                    ctx.event('float32-typed-parameter-call-raised')
+            for n in (2, 3, 7, 20, 12):
+                desc = {'wl': 'history', 'fn': fam, 'params': list(p), 'n': n, 'variant': HISTORY[0], 'class': f'{fam}:history:{HISTORY[0]}'}
+                ctx.case(desc)
+                with ctx.guard(f'C07/{fam}/history', desc):
+                    getattr(P, fam)(n, *p, xx)
+            desc = {'wl': 'history', 'fn': fam + '_seq', 'params': list(p), 'ns': [2, 7, 20], 'variant': HISTORY[0], 'class': f'{fam}_seq:history:{HISTORY[0]}'}
+            ctx.case(desc)
+            seq_call(ctx, fam + '_seq', desc, lambda: getattr(P, fam + '_seq')([2, 7, 20], *p, xx), None, [])
+    finally:
+        HISTORY[0] = None
+        clear_caches()
+
+
+def high_order_unit(ctx, P, rng):
+    """Class D in the quick tier too: orders >= 18 and >= 40 for the two-index families, the monomials and Hopkins terms."""
+    r = np.concatenate([[0.0, 1.0], dyadic(rng, 0, 1, (3,), den=32)])
+    t = rng.uniform(0, 2 * np.pi, 5)
+    warm_nm(P, 'zernike', 44, 44)
+    for n, m in ((18, 0), (18, 2), (19, -1), (20, 20), (21, -21), (40, 0), (41, 1), (41, -3), (44, 4), (42, -42), (43, 17), (60, 0), (60, -2)):
+        for norm in (True, False):
+            desc = {'wl': 'high-order', 'fn': 'zernike_nm', 'n': n, 'm': m, 'norm': norm, 'class': f'zernike_nm:high-order:{zmclass(m)}'}
+            ctx.case(desc)
+            with ctx.guard('C07/zernike_nm/high-order', desc):
+                P.zernike_nm(n, m, r, t, norm=norm)
+    for lst in ([(18, 0), (19, 1), (41, -3), (44, 4)], [(41, 1)], [(60, 0), (2, 0), (40, 0)], [(43, 17), (43, -17), (17, 17)]):
+        desc = {'wl': 'high-order', 'fn': 'zernike_nm_seq', 'nms': lst, 'class': 'zernike_nm_seq:high-order'}
+        ctx.case(desc)
+        seq_call(ctx, 'zernike_nm_seq', desc, lambda: P.zernike_nm_seq(lst, r, t, norm=len(lst) % 2 == 0), None, [(zmclass(e[1]), lambda e=e: ORIG['zernike_nm_seq']([e], r, t)) for e in lst])
+    warm_nm(P, 'q2d', 41, 20)
+    for n, m in ((18, 0), (18, 1), (19, -1), (18, 2), (20, -3), (5, 18), (3, -20), (40, 0), (41, 1), (40, -1), (41, 2), (40, -5), (41, 12)):
+        desc = {'wl': 'high-order', 'fn': 'Q2d', 'n': n, 'm': m, 'class': f'Q2d:high-order:{q2d_mclass(m)}'}
+        ctx.case(desc)
+        with ctx.guard('C07/Q2d/high-order', desc):
+            P.Q2d(n, m, r, t)
+    for lst in ([(18, 0), (19, 1), (41, -1), (40, 2)], [(41, 1)], [(40, 0), (2, 0), (18, 0)], [(20, 3), (41, -3), (4, 3)]):
+        desc = {'wl': 'high-order', 'fn': 'Q2d_seq', 'nms': lst, 'class': 'Q2d_seq:high-order'}
+        ctx.case(desc)
+        seq_call(ctx, 'Q2d_seq', desc, lambda: P.Q2d_seq(lst, r, t), None, [(q2d_mclass(e[1]), lambda e=e: ORIG['Q2d_seq']([e], r, t)) for e in lst])
+    x = dyadic(rng, -1, 1, (4,), den=16)
+    y = dyadic(rng, -1, 1, (4,), den=16)
+    X, Y = np.meshgrid(x, y[:3])
+    for m_, n_ in ((18, 0), (0, 19), (18, 19), (40, 3), (2, 41), (41, 40)):
+        desc = {'wl': 'high-order', 'fn': 'xy', 'm': m_, 'n': n_, 'class': 'xy:high-order'}
+        ctx.case(desc)
+        with ctx.guard('C07/xy/high-order', desc):
+            P.xy(m_, n_, x, y, cartesian_grid=False)
+            P.xy(m_, n_, X, Y)
+    for lst in ([(18, 0), (0, 19), (2, 41), (1, 1)], [(41, 40)], [(40, 3), (3, 40), (0, 0)]):
+        desc = {'wl': 'high-order', 'fn': 'xy_seq', 'mns': lst, 'class': 'xy_seq:high-order'}
+        ctx.case(desc)
+        seq_call(ctx, 'xy_seq', desc, lambda: P.xy_seq(lst, x, y, cartesian_grid=False), None, [('general', lambda e=e: ORIG['xy_seq']([e], x, y, cartesian_grid=False)) for e in lst])
+        seq_call(ctx, 'xy_seq', desc, lambda: P.xy_seq(lst, X, Y), None, [('cartesian', lambda e=e: ORIG['xy_seq']([e], X, Y)) for e in lst])
+    H = dyadic(rng, 0, 1, (5,), den=32)
+    for a_, b_, c_ in ((18, 18, 0), (-19, 19, 2), (0, 40, 1), (41, 41, 18), (-40, 2, 41)):
+        desc = {'wl': 'high-order', 'fn': 'hopkins', 'a': a_, 'b': b_, 'c': c_, 'class': 'hopkins:high-order'}
+        ctx.case(desc)
+        with ctx.guard('C07/hopkins/high-order', desc):
+            P.hopkins(a_, b_, c_, r, t, H)
+
+
+def hardening_units(ctx, P):
+    """(callable, weight) units of the hardening classes; the list `last` must run after everything else on its shard."""
+    units, last = [], []
+    for i, (fam, params) in enumerate(ALIAS_FAMS):
+        units.append((lambda fam=fam, params=params, i=i: alias_unit(ctx, P, fam, params, ctx.rng('alias', fam, i)), 1))
+    units.append((lambda: alias_nm_unit(ctx, P, ctx.rng('alias-nm')), 1))
+    lp = ctx.pick(2, 4)
+    for part in range(lp):
+        units.append((lambda part=part: layout_unit(ctx, P, ctx.rng('layout', part), part, lp), 1))
+    units.append((lambda: container_unit(ctx, P, ctx.rng('containers')), 1))
+    cp = ctx.pick(3, 6)
+    for part in range(cp):
+        units.append((lambda part=part: cfg32_unit(ctx, P, ctx.rng('cfg32', part), part, cp), 1))
+    units.append((lambda: high_order_unit(ctx, P, ctx.rng('high-order')), 1))
+    top = ctx.pick(45, 200)
+    toph = ctx.pick(41, 60)
+    hist = [('jacobi', [(0.25, -0.25), (0.25, 0.75), (-0.25, 0.25), (0.75, 0.25)], top), ('jacobi', [(0.0, 4.0), (0.0, 0.0), (4.0, 0.0), (2.0, 2.0)], top),
+            ('jacobi', [(-0.5, 0.5), (0.5, -0.5), (-0.5, -0.5), (0.5, 0.5)], top), ('legendre', [()], top), ('cheby1', [()], top), ('cheby2', [()], top),
+            ('cheby3', [()], top), ('cheby4', [()], top), ('Qcon', [()], top), ('Qbfs', [()], ctx.pick(41, 60)),
+            ('hermite_He', [()], toph), ('hermite_H', [()], toph), ('laguerre', [(0.5,), (-0.5,), (1.5,)], toph),
+            ('dickson1', [(0.75,), (-0.75,), (0.0,)], toph), ('dickson2', [(0.75,), (-0.75,), (1.0,)], toph)]
+    for hi_, (fam, plist, tp) in enumerate(hist):
+        variants = HIST_VARIANTS if not ctx.quick else [HIST_VARIANTS[hi_ % 2], HIST_VARIANTS[2 + hi_ % 2]]
+        for v in variants:
+            units.append((lambda fam=fam, plist=plist, tp=tp, v=v: history_1d_unit(ctx, P, fam, plist, tp, v), 1))
+    for v in HIST_VARIANTS:
+        units.append((lambda v=v: history_shared_unit(ctx, P, v), 1))
+        units.append((lambda v=v: history_q_unit(ctx, P, v, (1, 2, 3) if v.startswith('f32') else (1, 2, 7)), 2))
+    last.append((lambda: typed_parameter_unit(ctx, P), 1))
+    return units, last
 
 
 # ------------------------------------------------------------------------------------------ driver
@@ -1404,7 +2174,8 @@ def _run(ctx):
         E.selftest()
         ctx.note('refmodel_selftest', 'poly_exact.selftest() passed (two textbook forms, trig forms, Jacobi relations, Forbes closed forms n<=5 == exact Gram-Schmidt)')
     rng = ctx.rng('c07')
-    NJ = ctx.pick(40, 150)        # Jacobi-family orders
+    NJ = ctx.pick(40, 200)        # Jacobi-family orders (value sweeps)
+    NG = ctx.pick(40, 150)        # Jacobi-family orders of the Gram matrices (quadrature round-off grows with the order)
     NH = ctx.pick(40, 60)         # Hermite / Laguerre / Dickson
     NQ = ctx.pick(40, QBFS_EXACT_MAX)
     units = []   # (callable, weight)
@@ -1425,9 +2196,9 @@ def _run(ctx):
         add_sweeps('jacobi', ab, NJ, 3)
     for ab in JAC_NONDYADIC:
         add_sweeps('jacobi', ab, ctx.pick(24, 40), 2)
-    extra = [(float(a), float(b)) for a, b in dyadic(rng, -0.9375, 5.0, (ctx.pick(2, 8), 2), den=16)]
+    extra = [(float(a), float(b)) for a, b in dyadic(rng, -0.9375, 5.0, (ctx.pick(2, 24), 2), den=16)]
     for ab in extra:
-        add_sweeps('jacobi', ab, ctx.pick(30, 80), 2)
+        add_sweeps('jacobi', ab, ctx.pick(30, 100), 2)
     for ab in JAC_PARAMS[:8] + extra[:2]:
         add(lambda ab=ab: shapes_unit(ctx, P, 'jacobi', ab, shape_orders, ctx.rng('shapes', 'jacobi', ab)), 1)
     for fam in ('legendre', 'cheby1', 'cheby2', 'cheby3', 'cheby4'):
@@ -1456,14 +2227,14 @@ def _run(ctx):
         return 1e-9 if nmax <= 40 else 1e-8
     for ab in JAC_PARAMS + JAC_NONDYADIC + extra[:2]:
         classical = jac_pclass(*ab) in ('a=b=0', 'half-integer') or ab in ((0.0, 4.0), (0.0, 1.0), (0.0, 7.0))
-        nm = NJ if ab in JAC_PARAMS else ctx.pick(30, 60)
+        nm = NG if ab in JAC_PARAMS else ctx.pick(30, 60)
         add(lambda ab=ab, nm=nm, classical=classical: gram_1d_unit(
             ctx, P, 'jacobi', ab, nm, E.gauss_jacobi(nm + 2, *ab), lambda n: math.log(E.jacobi_h(n, *ab)),
             GT(nm) if classical else 100 * GT(nm), 'gram.jacobi'), 2)
-    add(lambda: gram_1d_unit(ctx, P, 'legendre', (), NJ, E.gauss_jacobi(NJ + 2, 0, 0), lambda n: math.log(2 / (2 * n + 1)), GT(NJ), 'gram.legendre'), 2)
+    add(lambda: gram_1d_unit(ctx, P, 'legendre', (), NG, E.gauss_jacobi(NG + 2, 0, 0), lambda n: math.log(2 / (2 * n + 1)), GT(NG), 'gram.legendre'), 2)
     for kind, (a, b) in ((1, (-.5, -.5)), (2, (.5, .5)), (3, (-.5, .5)), (4, (.5, -.5))):
-        add(lambda kind=kind, a=a, b=b: gram_1d_unit(ctx, P, f'cheby{kind}', (), NJ, E.gauss_jacobi(NJ + 2, a, b),
-                                                     lambda n: math.log(E.cheby_h(kind, n)), GT(NJ), 'gram.cheby'), 2)
+        add(lambda kind=kind, a=a, b=b: gram_1d_unit(ctx, P, f'cheby{kind}', (), NG, E.gauss_jacobi(NG + 2, a, b),
+                                                     lambda n: math.log(E.cheby_h(kind, n)), GT(NG), 'gram.cheby'), 2)
     for kind, fam in (('He', 'hermite_He'), ('H', 'hermite_H')):
         add(lambda kind=kind, fam=fam: gram_1d_unit(ctx, P, fam, (), NH, E.gauss_hermite(kind, NH + 2),
                                                     lambda n: E.log_hermite_h(kind, n), 1e-9, 'gram.hermite'), 1)
@@ -1475,14 +2246,20 @@ def _run(ctx):
     units.extend(q_units(ctx, P, ctx.rng('q')))
     add(lambda: xy_hopkins_unit(ctx, P, ctx.rng('xy')), 1)
     units.extend(seq_units(ctx, P))
+    hard, last = hardening_units(ctx, P)
+    units.extend(hard)
 
     # heaviest first, dealt round-robin: deterministic and reasonably balanced
     order = sorted(range(len(units)), key=lambda i: (-units[i][1], i))
     for pos, i in enumerate(order):
         if ctx.mine(pos):
             units[i][0]()
-    ctx.note('orders', {'jacobi_family': NJ, 'hermite_laguerre_dickson': NH, 'qbfs_exact': NQ, 'qbfs_gram': ctx.pick(40, 150),
-                        'zernike_n': ctx.pick(12, 30), 'q2d_value_nm': list(ctx.pick((10, 10), (30, 30))),
+    # units that deliberately leave hostile entries in the memo tables run after everything else, on the last shard only
+    if ctx.shard == ctx.nshards - 1:
+        for fn, _ in last:
+            fn()
+    ctx.note('orders', {'jacobi_family': NJ, 'jacobi_family_gram': NG, 'hermite_laguerre_dickson': NH, 'qbfs_exact': NQ, 'qbfs_gram': ctx.pick(40, 150),
+                        'zernike_n': ctx.pick(12, 40), 'zernike_gram_n': ctx.pick(12, 30), 'q2d_value_nm': list(ctx.pick((10, 10), (40, 40))),
                         'q2d_gram_nm': list(ctx.pick((8, 8), (24, 24)))})
 
 
